@@ -258,8 +258,9 @@ func (m *blueGreenReleaseManager) doCanaryJump(c *RolloutContext) (jumped bool) 
 		bluegreenStatus.CurrentStepIndex = nextIndex
 		bluegreenStatus.NextStepIndex = util.NextBatchIndex(c.Rollout, nextIndex)
 		nextStep := c.Rollout.Spec.Strategy.BlueGreen.Steps[nextIndex-1]
-		// compare next step and current step to decide the state we should go
-		if reflect.DeepEqual(nextStep.Replicas, currentStep.Replicas) {
+		// compare next step and current step to decide the state we should go;
+		// the upgrade can only be skipped if the current step has already completed its own
+		if reflect.DeepEqual(nextStep.Replicas, currentStep.Replicas) && isStepUpgradeDone(currentStepStateBackup) {
 			bluegreenStatus.CurrentStepState = v1beta1.CanaryStepStateTrafficRouting
 		} else {
 			bluegreenStatus.CurrentStepState = v1beta1.CanaryStepStateInit
